@@ -24,6 +24,11 @@ CLAIMED = {
         "level": "Generated droplets of all five classes on every compatible grid family (generic and dyadic Cartesian 1-3 D with all periodicity masks, polar, spherical, cylindrical), widths None/0/positive, arbitrary level pairs, centres on cell centres/faces/outside the box; finiteness, range, midpoint equivalence, exact indicator, monotonic decay, roll equivariance, emulsion clause.",
         "note": "The droplet's own interface_distance defines the shape (C13 checks it); knife-edge and ambiguous-image cells excluded and counted; exact 1-D dyadic cases judged without tolerance.",
     },
+    "C04": {
+        "technique": _T + "; harness-side recording proxy for scipy.optimize (initial/final cost, bounds), independent recomputation of the deviation over the fit region, post-condition oracle",
+        "level": "Generated images (clean, noisy, rescaled, pure noise, smooth, self-render) x candidates of every class and mode count x all grid families and periodicities x four intensity options; cost non-increase, bounds, class, symmetry-fixed coordinates, periodic wrap, image immutability, fixed point.",
+        "note": "scipy least_squares trusted; fixed-point clause only for candidates with an explicit positive width; independent deviation skipped on periodic cylindrical grids (py-pde rendering does not wrap z).",
+    },
     "C06": {
         "technique": "exhaustive enumeration of lattice histories + Hypothesis-generated time courses; invariant over the history (multiset partition, input snapshot)",
         "level": "All 3-frame histories over every subset of a 4-site (thorough 5-site) 1-D lattice x methods x cut-offs x {no grid, periodic}; generated time courses of 0-6 (10) frames, any droplet class, dims 1-3, three placement modes, all cut-offs; partition invariant, gap-free/at-most-once under the stated premise, input unmodified.",
